@@ -6,11 +6,13 @@ import (
 	"math/rand"
 	"regexp"
 	"strings"
+	"sync/atomic"
 	"time"
 
 	"verif/harness/core"
 	"verif/harness/env"
 	"verif/harness/reply"
+	"verif/harness/sim"
 	"verif/harness/spsim"
 	"verif/harness/verify"
 )
@@ -151,8 +153,11 @@ func c06Evaluate(c *ssoCase, call *env.Call, registered map[string]bool) (bad []
 func c06Case(r *core.Run, idx int, rng *rand.Rand) {
 	const wl = "deviations"
 	c := conformantSSO(rng)
+	// a sixth of the cases is served while the key storage fails (for good, or for the first call only), and a
+	// storage that answers "no record, no error" for unknown entities is in use half of the time
+	keyFault := idx%6 == 3
 	// keep signing out of the way in most cases: the deviation must be the only reason for rejection
-	if rng.Intn(4) > 0 {
+	if rng.Intn(4) > 0 && !(keyFault && c.SPD.Cert != nil && rng.Intn(2) == 0) {
 		c.Signed = false
 		c.SPD.AuthnRequestsSigned = []string{"", "false", "0"}[rng.Intn(3)]
 		c.Want = []string{"", "false"}[rng.Intn(2)]
@@ -175,7 +180,27 @@ func c06Case(r *core.Run, idx int, rng *rand.Rand) {
 	if len(c.Labels) == 0 {
 		c.Labels = []string{"conformant"}
 	}
-	e, call := c.run(rng, nil)
+	if keyFault {
+		c.Labels = append(c.Labels, "key_storage_fault")
+	}
+	e, call := c.run(rng, func(e *env.Env) {
+		e.W.NilForUnknown = rng.Intn(2) == 0
+		if !keyFault {
+			return
+		}
+		kind := []string{sim.FaultError, sim.FaultTimeout, sim.FaultNilRecord, sim.FaultKeyNoCert, sim.FaultCertNoKey, sim.FaultEmptyCert}[rng.Intn(6)]
+		transient := rng.Intn(3) == 0
+		var nth atomic.Int64
+		e.W.Plan = func(tag, op string, occ int) string {
+			if op == "GetResponseSigningKey" && (nth.Add(1) == 1 || !transient) {
+				return kind
+			}
+			return ""
+		}
+	})
+	if keyFault {
+		r.Count("deviating_requests_during_key_storage_fault", 1)
+	}
 	out := judgeSSOOutcome(r, wl, idx, c.label(), e, call, c.describe())
 	accepted := call.Accepted() || (call.D.Status == 303 && strings.HasPrefix(call.D.Location, "https://login.idp.example/"))
 	r.Eval(fmt.Sprintf("%s|%s|%s|%v|%s", c.label(), out, c.Binding, c.Signed, c.Req.Style.String()))
@@ -192,7 +217,7 @@ func c06Case(r *core.Run, idx int, rng *rand.Rand) {
 			return
 		}
 	}
-	deviating := c.Labels[0] != "conformant"
+	deviating := c.Labels[0] != "conformant" && c.Labels[0] != "key_storage_fault"
 	if deviating {
 		r.Count("deviating_cases", 1)
 		for _, l := range c.Labels {
